@@ -361,9 +361,10 @@ class Fn:
                 pass
             dest_fields = [e for e in s[1][1] if isinstance(e, list) and e[0] == "f" and e[2]]
             if dest_fields:
-                # last field is written; earlier are traversed (read)
+                # every field on the path to the written location is modified (and traversed)
                 for e in dest_fields[:-1]:
                     yield (e[2], e[3], e[4], "r", bb, line)
+                    yield (e[2], e[3], e[4], "w", bb, line)
                 e = dest_fields[-1]
                 yield (e[2], e[3], e[4], "w", bb, line)
             rv = s[2]
@@ -373,7 +374,10 @@ class Fn:
             for pl in rvalue_places(rv):
                 fs = [e for e in pl[1] if isinstance(e, list) and e[0] == "f" and e[2]]
                 for j, e in enumerate(fs):
-                    yield (e[2], e[3], e[4], mode if j == len(fs) - 1 else "r", bb, line)
+                    if j < len(fs) - 1:
+                        yield (e[2], e[3], e[4], "r", bb, line)
+                    if mode == "w" or j == len(fs) - 1:
+                        yield (e[2], e[3], e[4], mode, bb, line)
             for op in rvalue_operands(rv):
                 if op[0] in ("c", "m"):
                     for e in op[1][1]:
